@@ -77,6 +77,11 @@ fixed('C15', 'faceLocations (1D) returns a copy', 'Z4 faceLocations 1D stores th
 
 fixed('C13', 'HCUS flux limiter guards', 'F2 HCUS: 0/0 = nan at r = -2 (no eps guard)')
 
+known('C17', 'H4', 'advection._fsign/absolute-threshold',
+      "_fsign guards the TVD gradient ratios with the absolute threshold eps1=1e-16 that is compared with, and added to, a gradient of dimension "
+      "K/L: its output is not homogeneous, so TVD results are unit-independent only while no |dphi| falls below 1e-16 in either unit system. "
+      "Not repaired: a relative threshold needs a reference scale that the function does not receive (signature change in 9 callers).")
+
 exec(open(os.path.join(os.path.dirname(__file__), 'known_more.py')).read()) if os.path.exists(os.path.join(os.path.dirname(__file__), 'known_more.py')) else None
 json.dump(dict(findings=f), open('/verif/known_findings.json', 'w'), indent=1)
 print(len(f), 'entries')
